@@ -29,6 +29,8 @@ type vcase struct {
 	// divergence from protoc (synthetic oneof name meeting a nested symbol): C01 / C02 skip it,
 	// C27 still compares the two compilers (the specification does not arbitrate).
 	Certain *bool `json:"certain"`
+	// Feat: a case of spec/MCFeat27.tla (C27 only): edition 2023 feature placement, rendered by feat.go.
+	Feat *featCase `json:"feat"`
 }
 
 func (c *vcase) certain() bool { return c.Certain == nil || *c.Certain }
@@ -192,6 +194,10 @@ func (r *runner) run(line []byte) {
 		return
 	}
 	raw := json.RawMessage(append([]byte(nil), bytes.TrimSpace(line)...))
+	if c.Feat != nil {
+		r.feat27(c.Feat, raw)
+		return
+	}
 	r.nmu.Lock()
 	r.n++
 	no := r.n
